@@ -1,6 +1,6 @@
 """Shard logic shared by the whole-core properties (C01-C05): draw configurations, differential self-test,
 Hypothesis search over stimulus, minimisation, confirmation on stock migen.sim."""
-import time, copy
+import os, time, copy
 from lib.runner import Collector, hyp_search, digest
 from lib import corecase as cc
 from lib.fastsim import HarnessError
@@ -122,6 +122,9 @@ def run_core_shard(sh, mod):
             if tier == "quick":
                 stim = ddmin_stim(stim, fails, 45)
             # confirm on stock migen.sim
+            if os.environ.get("VERIF_DEBUG_SKIP_CONFIRM"):      # debugging aid only: look at a finding without waiting for the stock simulator
+                violation = dict(case=dict(cfg=cfg, stim=stim), findings=fs, confirmed_on="NOT CONFIRMED (debug run)")
+                break
             ckw = {}
             if hasattr(mod, "confirm_kwargs"):
                 _, f_fast, _, _ = evaluate(mod, cfg, stim)
